@@ -234,3 +234,14 @@ package keeper
 //@ ensures [read-only] unchanged(ctx)
 // verif:func (Keeper).GetAllPacketSendSeqs
 //@ ensures [read-only] unchanged(ctx)
+
+// ---- lemmas over the contracts above (ghost code in zz_verif_lemmas.go) --------------------------
+
+// C05: a verified acknowledgement consumes the commitment, and without the commitment no acknowledgement of the
+// same packet is accepted (back to back; that no other operation re-creates a consumed commitment is the
+// sequencing argument of C04, composed by hand in DESIGN.md section 15)
+// verif:func lemmaAckProcessedOnce
+//@ let p1 = decodedPacket(first.Packet)
+//@ let p2 = decodedPacket(second.Packet)
+//@ modifies xibc(ctx)
+//@ ensures [processed-at-most-once] p1.SrcChain == p2.SrcChain && p1.DstChain == p2.DstChain && p1.Sequence == p2.Sequence ==> !(err1 == nil && err2 == nil)
